@@ -149,9 +149,9 @@ def deep_history(g, cfg, seed):
     h = common.History(cfg, seed, 'std', max_size=3000, max_depth=11)
     r = g.rng
     if r.random() < 0.5:
-        h.apply({'op': 'set_relocated_name', 'name': 'MOVED' if cfg.level > 1 else 'MOVED', 'rr_name': 'moved.dir'})
+        # (sometimes a Rock Ridge name long enough to need a continuation area of its own)
+        h.apply({'op': 'set_relocated_name', 'name': 'MOVED', 'rr_name': 'moved.dir' if r.random() < 0.6 else 'moved-' + 'm' * r.choice([150, 200, 240])})
         if h.sess.ops[-1][1].ok:
-            h.sess.model.rr_moved_name = ('MOVED', 'moved.dir')
             h.sess.model._update_reloc()
     p = ''
     depth = r.choice([8, 9, 10, 12])
